@@ -123,8 +123,24 @@ func checkLexer(src string) (string, string, int) {
 }
 
 // checkParse evaluates the C05 oracle on one input. It returns "" if it holds.
+var names = []string{"c05.p", "other.ppl", "dir/é script.p", "a.p"}
+var nameTurn int
+
 func checkParse(src string) (msg string, accepted bool) {
-	const name = "c05.p"
+	nameTurn++
+	name := names[nameTurn%len(names)]
+	msg, accepted = checkParseAs(name, src)
+	if msg == "" && !accepted {
+		// the diagnostic of a rejected text names the script it was offered as - also when the very same
+		// text was rejected under another name just before
+		if m2, _ := checkParseAs(names[(nameTurn+1)%len(names)], src); m2 != "" {
+			return "second parse of the same text under another name: " + m2, false
+		}
+	}
+	return msg, accepted
+}
+
+func checkParseAs(name, src string) (msg string, accepted bool) {
 	stmts, err, crash := impl.Parse(name, src)
 	serr := stderrNew()
 	if crash != nil {
@@ -489,6 +505,58 @@ func TestMutatedGenerated(t *testing.T) {
 		}
 		src, kind := mutate(t, src)
 		one(t, "mutgen", "mutated-generated/"+kind, src)
+	})
+}
+
+var badAtoms = []string{"0x", "0X", "1e", "1e+", "1.2.3", "1a", "\"\\q\"", "\"abc", "'", "`", "`a", ".[", ".[]", "\"\\x4\"", "\"\\u12\"", "08e", "0xg", "@", "$x", "1..2", "(", ")", "[", "{", "a[", "f(", "a[1:", "\"\"\"x", "1/0", "1%0.0", "a in", "!", "-"}
+
+// TestMalformedOperandTable: a malformed atom in every operand position, bare and inside 1..2 pairs of parentheses.
+func TestMalformedOperandTable(t *testing.T) {
+	ops := []string{"+", "-", "*", "/", "%", "==", "!=", "<", "<=", ">", ">=", "&&", "||", "in"}
+	n := 0
+	wrap := func(a string, k int) string { return strings.Repeat("(", k) + a + strings.Repeat(")", k) }
+	for _, bad := range badAtoms {
+		for k := 0; k <= 2; k++ {
+			b := wrap(bad, k)
+			var forms []string
+			for _, op := range ops {
+				forms = append(forms, "x = a "+op+" "+b, "x = "+b+" "+op+" a", "x = a "+op+" "+b+" "+op+" c", "a "+op[:1]+"= "+b)
+			}
+			forms = append(forms, "x = -"+b, "x = !"+b, "x = +"+b, "f("+b+")", "f(1, "+b+")", "f(k = "+b+")", "x = a["+b+"]", "x = a["+b+":]", "x = a[:"+b+"]", "x = a[::"+b+"]",
+				"x = ["+b+"]", "x = [1, "+b+", 2]", "x = {\"k\": "+b+"}", "x = {"+b+": 1}", "if "+b+" { }", "if a { } elif "+b+" { }", "for x in "+b+" { }", "for ; "+b+"; { }",
+				"for i = "+b+"; i < 1; i = i + 1 { }", "for ;; i = "+b+" { }", "a, b = 1, "+b, "a["+b+"] = 1", b, b+"\nx = 1", "x = 1\n"+b, "x = a."+b, "x = "+b+"[0]", "x = "+b+"[1:2]", "x = len("+b+")[0:1]")
+			for _, f := range forms {
+				one(t, "badoperand", "malformed-operand", f)
+				n++
+			}
+		}
+	}
+	evid.Exhaustive("malformed atom x operand position x parenthesis depth", n)
+}
+
+// TestMalformedLeaves: a generated valid program in which one leaf token is replaced by a malformed atom.
+func TestMalformedLeaves(t *testing.T) {
+	rk.Check(t, "badleaf", 8, evid.Scale(4000, 60000), func(t *rapid.T) {
+		prog := gen.Program(t, gen.ProfileSyntax())
+		src := gen.Print(prog, gen.RandomLayout(t))
+		var leaves [][2]int
+		gen.WalkAll(prog, func(n *gen.Node) {
+			switch n.Kind {
+			case gen.Ident, gen.Str, gen.Int, gen.Float, gen.Bool, gen.Nil:
+				if n.P.Start >= 0 && n.P.End > n.P.Start && n.P.End <= len(src) {
+					leaves = append(leaves, [2]int{n.P.Start, n.P.End})
+				}
+			}
+		})
+		if len(leaves) == 0 {
+			return
+		}
+		l := leaves[rapid.IntRange(0, len(leaves)-1).Draw(t, "leaf")]
+		bad := rapid.SampledFrom(badAtoms).Draw(t, "bad")
+		if rapid.IntRange(0, 2).Draw(t, "paren") == 0 {
+			bad = "(" + bad + ")"
+		}
+		one(t, "badleaf", "malformed-leaf", src[:l[0]]+bad+src[l[1]:])
 	})
 }
 
